@@ -274,9 +274,12 @@ JUDGES = {"c01": judge_c01, "c02": judge_c02, "c03": judge_c03, "c16": judge_c16
 # shard job
 
 
-def explore(kind, n, cfg, hidden, states, d, persistent, judge, snap=False, extra=None, only_pre_first=False, flavour="plain"):
+def explore(kind, n, cfg, hidden, states, d, persistent, judge, snap=False, extra=None, only_pre_first=False, flavour="plain",
+            two_step=None):
     t = core.Tally()
     forest.FAULT_FLAVOUR[0] = flavour
+    if two_step:
+        return explore_two_step(t, kind, n, hidden, states, judge, extra, two_step)
     ops = forest.ops_for(n, cfg)
     if isinstance(judge, str) and judge not in JUDGES:
         if judge in ("c17", "c18"):
@@ -303,6 +306,43 @@ def explore(kind, n, cfg, hidden, states, d, persistent, judge, snap=False, extr
                 t.obs((kind, key, op, ex.raise_at, ex.persist, ex.outcome, ex.post, [r[:3] for r in ex.log]))
                 if t.c["executions"] % 9973 == 1:
                     t.sample(forest.case_of(ex, witness), cap=2)
+    return t
+
+
+def explore_two_step(t, kind, n, hidden, states, judge, extra, ts):
+    """Histories in which an EARLIER call was aborted by a hook: from every state, every structural call under every
+    non-empty fault plan (step 1), then every structural call under the step-2 plans, judged against the forest
+    left by step 1.  State that survives a failed call inside the library (flags, guards, caches) shows up here."""
+    if judge not in JUDGES:
+        import importlib
+
+        JUDGES[judge] = importlib.import_module("mc.props.%s" % judge).JUDGE
+    jf = JUDGES[judge]
+    ops = forest.ops_for(n, {"read": False, "nonnode": False, "extras": False, "L": ts.get("L", n)})
+    want2 = (lambda h: h in PRE) if ts.get("only_pre_first2") else None
+    for key, state, witness in states:
+        forest.check_witness(kind, n, witness, key, hidden)
+        t.c["states"] += 1
+        for op1 in ops:
+            for ex1 in forest.runs(kind, n, witness, state, op1, ts.get("d1", 1), tuple(ts.get("persistent1", ()))):
+                if not ex1.faults or len(ex1.post) != len(state):
+                    continue
+                if forest.state_invariant(ex1.post, ex1.labels) is not None:
+                    continue  # reported by the single-step exploration
+                t.c["faulted_first_steps"] += 1
+                step = ("fault", op1, tuple(ex1.raise_at), tuple(ex1.persist) if ex1.persist else None)
+                w2 = tuple(witness) + (step,)
+                pre2 = ex1.post
+                for op2 in ops:
+                    t.c["transitions"] += 1
+                    for ex in forest.runs(kind, n, w2, pre2, op2, ts.get("d2", 0), tuple(ts.get("persistent2", ())), False, want2):
+                        t.c["executions"] += 1
+                        t.c["two_step_executions"] += 1
+                        core.guard(t, judge.upper(), forest.case_of(ex, w2), jf, t, ex, w2, extra)
+                        t.obs((kind, key, step, op2, ex.raise_at, ex.persist, ex.outcome, ex.post))
+        if t.c["executions"] and len(t.samples) < 1:
+            t.sample({"kind": kind, "witness": [list(w) for w in witness], "step1": "every call under every non-empty fault plan",
+                      "step2": "every call, judged against the forest left by step 1"})
     return t
 
 
@@ -336,7 +376,8 @@ def run_configs(configs, log=print):
                     ("mc.e1run", "explore", dict(kind=c["kind"], n=c["n"], cfg=c["cfg"], hidden=c["hidden"], states=s,
                                                  d=c["d"], persistent=tuple(c.get("persistent", ())), judge=c["judge"],
                                                  snap=c.get("snap", False), extra=c.get("extra"),
-                                                 only_pre_first=c.get("only_pre_first", False), flavour=c.get("flavour", "plain")))
+                                                 only_pre_first=c.get("only_pre_first", False), flavour=c.get("flavour", "plain"),
+                                                 two_step=c.get("two_step")))
                     for s in shards
                 ]
                 t = core.Tally()
